@@ -575,7 +575,7 @@ func c11Shared(c *Ctx) {
 // Sentences appended to the evidence rule of the operator-level properties.
 const (
 	ruleShared  = " One case in sixteen is a SEQUENCE of 2-4 requests that share operand objects (the same tensor object handed to several calls; as one graph: one input or initializer consumed by several nodes, run twice on one loaded model); every call is judged against the reference applied to the operand values the caller built."
-	ruleReused  = " In one case of eight the request is additionally applied to an operator instance that was initialised with the request's attributes and has already been applied to one or two other valid input lists (an instance carries only its attributes: same expectation). Further variants of the same request, each in one case of eight: the attribute list in another order; the input list as a prefix of a longer array; the same instance and tensor objects after the caller overwrote the operands in place; operands that are Clone()s of the caller's tensors, for two calls; as a model, the node between two Reshape nodes (operand and result are intermediate values). A deviating case is evaluated again alone and behind the cases before it (state kept between calls)."
+	ruleReused  = " In one case of eight the request is additionally applied to an operator instance that was initialised with the request's attributes and has already been applied to one or two other valid input lists (an instance carries only its attributes: same expectation). Further variants of the same request, each in one case of eight: the attribute list in another order; the input list as a prefix of a longer array; the same instance and tensor objects after the caller overwrote the operands in place; operands that are Clone()s of the caller's tensors, for two calls; as a model, the node between two Reshape nodes (operand and result are intermediate values). In one case of 32 each: the attributes without their type field (honoured or refused), and - for operators without attributes - a stray attribute (refused or computed as without it). One re-used-instance case in three has a perturbed, possibly refused, list among the earlier ones; warm calls clear the list they were returned; Apply must leave the list it was handed as it is. Single-node models: one in five without node names, one in sixteen with caller entries named like the initializers. One case in 48 runs right behind a case of another property. A deviating case is evaluated again alone and behind the cases before it (state kept between calls)."
 	ruleChained = " The split relation is also run as one graph of two chained nodes (first node's Y omitted in half of the cases, skipped optional inputs named \"\")."
 )
 
